@@ -148,6 +148,21 @@ def check(res):
             viol("nesting:" + m.group(4).split("|")[1].split(":")[0], "printing a unit with nested statements: %s" % m.group(4), {"program": progs[i - 1][:5000], "rerun": "echo '<program>' | build/<hash>/plain/print_driver prog"})
         else:
             nest_ok += 1
+    # ---- 3b. the numbers the printer writes itself (nesting levels, positions) at every width boundary up to 2^64 - 1: decimal digits only
+    pn = run([exe, "num"], timeout=600)
+    nnum = 0
+    for l in pn.stdout.splitlines():
+        m = re.match(r"N (\S+) (\d+) (\S+) state=(\S+)", l)
+        if not m:
+            continue
+        nnum += 1
+        txt = b"" if m.group(3) == "-" else bytes.fromhex(m.group(3).replace("...", ""))
+        digits = re.findall(rb"\d+", txt)
+        if m.group(4) != "ok" or m.group(2).encode() not in digits or any(x < 32 or x > 126 for x in txt):
+            viol("numbers:" + m.group(1), "writing %s{%s} gives %r (state %s): the value does not appear in decimal, or other bytes than printable ones are written" %
+                 (m.group(1), m.group(2), txt[:60], m.group(4)), {"value": m.group(2), "output_hex": m.group(3)[:200], "rerun": "build/<hash>/plain/print_driver num"})
+    if pn.returncode != 0 or nnum == 0:
+        viol("numbers:crash", "writing nesting levels and positions at the width boundaries aborted", {"stderr": pn.stderr[-2000:], "rerun": "build/<hash>/plain/print_driver num"})
     # ---- 4. every delimiter kind of an enclosure, alone and nested; every byte written must be printable or a newline
     dprogs = ["(program (var x int (encl %d (lit int 31))))" % k for k in range(5)] + \
              ["(program (var x int (encl %d (encl %d (add (lit int 31) (encl %d (id y int)))))))" % (a, b, c) for a in range(5) for b in range(5) for c in range(5)]
